@@ -1,6 +1,7 @@
 package props
 
 import (
+	"fmt"
 	"strings"
 
 	"verif/engine/core"
@@ -18,6 +19,7 @@ func init() {
 		},
 		Run: runC16,
 		Controls: []Control{
+			{Name: "host-bit-mask-with-signed-shift-count", File: "net/prefix.go", Old: "\t\treturn checkLastNBitsUint32(uint32(p.addr.lower), 32-p.len)\n", New: "\t\treturn uint32(p.addr.lower)&(uint32(1)<<(32-int(p.len))-1) == 0\n", Expect: "no-panic"},
 			{Name: "refactor-mp-reach-without-budget-variable", Silent: true, File: "protocols/bgp/packet/mp_reach_nlri.go", Old: "\tbudget -= int(nextHopLength)\n\n\tif budget == 0 {\n\t\treturn n, nil\n\t}\n", New: "\tif variableLength == int(nextHopLength) {\n\t\treturn n, nil\n\t}\n"},
 			{Name: "mp-reach-reserved-octet-not-accounted", File: "protocols/bgp/packet/mp_reach_nlri.go", Old: "\tif budget == 0 {\n\t\treturn n, nil\n\t}\n", New: "\tif budget < 0 {\n\t\treturn n, nil\n\t}\n", Expect: "no-panic"},
 			{Name: "label-read-may-be-short", File: "protocols/bgp/packet/label.go", Old: "\tlabel := make([]byte, BytesPerLabel)\n\t_, err := buf.Read(label)\n\tif err != nil {\n\t\treturn LabelStackEntry(0), fmt.Errorf(\"read failed: %w\", err)\n\t}\n", New: "\tlabel := buf.Next(BytesPerLabel)\n\tif len(label) == 0 {\n\t\treturn LabelStackEntry(0), fmt.Errorf(\"read failed\")\n\t}\n", Expect: "no-panic"},
@@ -47,4 +49,27 @@ func runC16(c *core.Ctx) {
 	c.Check(nops >= 5, "scope", "panic-capable operations enumerated", root.Decl.Pos(), "fewer explicit panic-capable operations than confirmed by hand")
 	c.Floor("bounded-allocation", 8)
 	c.Floor("bounded-loop", 8)
+	// the address helpers of package net that the decoder calls (Prefix.Valid, NewPfx, …): shifts by a signed count
+	// (negative count = panic) are decided there too; their index operations depend on the standard library's net.IP
+	// shapes and stay outside the scope
+	nShift := 0
+	for _, f := range c.P.ReachableFns(root) {
+		if !strings.HasSuffix(f.Pkg.PkgPath, "bio-rd/net") || f.Decl.Body == nil {
+			continue
+		}
+		for _, o := range core.PanicOps(f) {
+			if o.Kind != "shift" {
+				continue
+			}
+			nShift++
+			c.Analysed(f)
+			construct := fmt.Sprintf("%s %s #%d %s", f.Name(), o.Kind, o.Ord, exprOfNode(o.Node))
+			if ok, why, _ := c.P.LinearDischarge(f, o.Node); ok {
+				c.Hold("no-panic", construct, o.Node.Pos(), why)
+			} else {
+				c.Fail("no-panic", construct, o.Node.Pos(), "shift by a signed count that is not shown to be non-negative ("+why+") in an address helper the UPDATE decoder calls: a negative count panics — e.g. `32 - int(len)` for an IPv4-mapped IPv6 NLRI whose length exceeds 32")
+			}
+		}
+	}
+	_ = nShift
 }
